@@ -126,6 +126,7 @@ def decode_member(desc, tier, seed, props=('C01', 'C03', 'C07', 'C16'), encoders
             continue
         X, exhaustive = all_vectors(dvs, cap=4096 if tier == 'thorough' else 1024)
         seen = {}
+        by_arch = {}
         reached = set()
         for x in X:
             wit = [enc, x]
@@ -165,6 +166,10 @@ def decode_member(desc, tier, seed, props=('C01', 'C03', 'C07', 'C16'), encoders
                     ctx.check('C03.vector-determines-architecture', seen[key] == a_dv, wit,
                               'same corrected vector, different architectures', nt)
                 seen[key] = a_dv
+                if 'C03' in props and all(dv.is_discrete for dv in dvs):   # continuous values are not part of a_dv
+                    prev = by_arch.setdefault(a_dv, key)
+                    ctx.check('C03.distinct-vectors-distinct-architectures', prev == key, wit,
+                              f'corrected vectors {list(prev)} and {list(key)} denote the same architecture', nt)
                 # selection variables describe the instance: option at index is wired to the originating node
                 for k, dv in enumerate(dvs):
                     node = dv.node
